@@ -179,7 +179,8 @@ fn ref_tokenise(text: &S) -> Vec<(usize, S, Vec<S>)> {
 	for l in lines {
 		let ind = l.iter().take_while(|&&c| c == 9).count();
 		let mut rest: &[u32] = &l[ind..];
-		if !rest.starts_with(&comment) {
+		let is_comment = rest.starts_with(&comment);
+		if !is_comment {
 			let cut = rest.iter().position(|&c| c == '#' as u32).unwrap_or(rest.len());
 			let (mut a, mut b) = (0, cut);
 			while a < b && uni_ws(rest[a]) { a += 1; }
@@ -187,7 +188,10 @@ fn ref_tokenise(text: &S) -> Vec<(usize, S, Vec<S>)> {
 			rest = &rest[a..b];
 		}
 		if rest.is_empty() { continue; }
-		let mut toks: Vec<S> = rest.split(|&c| java_ws(c)).map(|t| t.to_vec()).collect();
+		// a COMMENT line: the tag, then everything after the first separator as it is; any other line: its fields
+		let mut toks: Vec<S> = if is_comment {
+			match rest.iter().position(|&c| java_ws(c)) { Some(p) => vec![rest[..p].to_vec(), rest[p + 1..].to_vec()], None => vec![rest.to_vec()] }
+		} else { rest.split(|&c| java_ws(c)).map(|t| t.to_vec()).collect() };
 		let first = toks.remove(0);
 		out.push((ind, first, toks));
 	}
@@ -315,7 +319,14 @@ fn is_mod(x: &[u32]) -> bool { x.starts_with(&s("ACC:")) }
 fn unq(x: &[u32]) -> bool { !x.is_empty() && x.iter().all(|&c| !matches!(char::from_u32(c), Some('.' | ';' | '[' | '/'))) }
 fn obj_name(x: &[u32]) -> bool { x.first() != Some(&('[' as u32)) && x.split(|&c| c == SLASH).all(unq) }
 fn meth_name(x: &[u32]) -> bool { x == s("<init>") || x == s("<clinit>") || (unq(x) && !x.contains(&('<' as u32)) && !x.contains(&('>' as u32))) }
-fn doc_ok(d: &Option<S>) -> bool { d.as_ref().map_or(true, |d| d.iter().all(|&c| !matches!(c, 9 | 11 | 12 | 13))) }
+/// a comment the format can store: none of its lines (LF separates them) ends with CR
+fn doc_ok(d: &Option<S>) -> bool { d.as_ref().map_or(true, |d| d.split(|&c| c == 10).all(|l| l.last() != Some(&13))) }
+/// all comments of a set
+fn all_docs(m: &MMappings) -> Vec<&Option<S>> {
+	let mut v = vec![];
+	for c in &m.classes { v.push(&c.doc); for f in &c.fields { v.push(&f.doc); } for me in &c.methods { v.push(&me.doc); for p in &me.params { v.push(&p.doc); } } }
+	v
+}
 fn mdst(me: &MMeth) -> Option<S> { me.names.get(1).cloned().flatten().filter(|d| *d != s("<init>")) }
 
 /// the hypotheses of the round-trip theorem (coq/C12: enigma_ok), written independently; returns the first reason it fails
@@ -327,7 +338,7 @@ fn enigma_ok(m: &MMappings) -> Result<(), &'static str> {
 		if !keys.insert(key(c)) { return Err("duplicate class key"); }
 		if !obj_name(&key(c)) || !tok_ok(&key(c)) { return Err("class source name"); }
 		if let Some(d) = dst(c) { if !obj_name(&d) || !tok_ok(&d) { return Err("class target name"); } }
-		if !doc_ok(&c.doc) { return Err("comment with TAB/VT/FF/CR"); }
+		if !doc_ok(&c.doc) { return Err("comment with a line ending in CR"); }
 		if depth(m, c) > 64 { return Err("nested deeper than the reader's limit of 64"); }
 		match parent_in(m, c) {
 			Some(p) => {
@@ -347,7 +358,7 @@ fn enigma_ok(m: &MMappings) -> Result<(), &'static str> {
 			if !fk.insert((n.clone(), f.desc.clone())) { return Err("duplicate field key"); }
 			if !unq(n) || !tok_ok(n) || !tok_ok(&f.desc) { return Err("field token"); }
 			if let Some(d) = &f.names[1] { if !unq(d) || !tok_ok(d) { return Err("field token"); } if is_mod(&f.desc) { return Err("ACC: descriptor"); } }
-			if !doc_ok(&f.doc) { return Err("comment with TAB/VT/FF/CR"); }
+			if !doc_ok(&f.doc) { return Err("comment with a line ending in CR"); }
 		}
 		let mut mk = BTreeSet::new();
 		for me in &c.methods {
@@ -357,14 +368,14 @@ fn enigma_ok(m: &MMappings) -> Result<(), &'static str> {
 			if !meth_name(n) || !tok_ok(n) || !tok_ok(&me.desc) { return Err("method token"); }
 			if let Some(d) = &me.names[1] { if !meth_name(d) || !tok_ok(d) { return Err("method token"); } }
 			if mdst(me).is_some() && is_mod(&me.desc) { return Err("ACC: descriptor"); }
-			if !doc_ok(&me.doc) { return Err("comment with TAB/VT/FF/CR"); }
+			if !doc_ok(&me.doc) { return Err("comment with a line ending in CR"); }
 			let mut pk = BTreeSet::new();
 			for p in &me.params {
 				if p.names.len() != 2 { return Err("names row"); }
 				if !pk.insert(p.index) { return Err("duplicate parameter"); }
 					if p.names[0].is_some() { return Err("parameter with a first-namespace name"); }
 				match &p.names[1] { Some(d) if unq(d) && tok_ok(d) => {}, Some(_) => return Err("parameter token"), None => return Err("parameter without target") }
-				if !doc_ok(&p.doc) { return Err("comment with TAB/VT/FF/CR"); }
+				if !doc_ok(&p.doc) { return Err("comment with a line ending in CR"); }
 			}
 		}
 	}
@@ -384,6 +395,77 @@ fn drop_param_src(m: &MMappings) -> MMappings {
 	let mut m = m.clone();
 	for c in &mut m.classes { for me in &mut c.methods { for p in &mut me.params { p.names[0] = None; } } }
 	m
+}
+
+/// Independent reference writer: what the format prescribes for a mapping set inside the hypotheses — files in ascending order of
+/// their names; per class its CLASS line (full names at indentation 0, the part after the last `$` below a parent), its comment,
+/// its fields ascending by (names row, descriptor), its methods likewise (a target `<init>` not written), per method its comment and
+/// its parameters ascending by (index, names row) with their comments, then the classes nested in it ascending by source name.
+/// The `#` header lines of write_all are not part of it.
+fn ref_write(m: &MMappings) -> S {
+	fn doc_lines(out: &mut S, ind: usize, d: &Option<S>) {
+		if let Some(d) = d { for l in d.split(|&c| c == 10) { out.extend(std::iter::repeat(9).take(ind)); out.extend(s("COMMENT ")); out.extend_from_slice(l); out.push(10); } }
+	}
+	fn class(out: &mut S, m: &MMappings, c: &MClass, ind: usize) {
+		let short = |x: S| if ind > 0 { split_inner(&x).map(|p| p.1).unwrap_or(x) } else { x };
+		out.extend(std::iter::repeat(9).take(ind)); out.extend(s("CLASS ")); out.extend(short(key(c)));
+		if let Some(d) = dst(c) { out.push(32); out.extend(short(d)); }
+		out.push(10);
+		doc_lines(out, ind + 1, &c.doc);
+		let mut fs: Vec<&MField> = c.fields.iter().collect();
+		fs.sort_by(|a, b| a.names.cmp(&b.names).then_with(|| a.desc.cmp(&b.desc)));
+		for f in fs {
+			out.extend(std::iter::repeat(9).take(ind + 1)); out.extend(s("FIELD ")); out.extend(f.names[0].clone().unwrap_or_default());
+			if let Some(d) = &f.names[1] { out.push(32); out.extend(d.clone()); }
+			out.push(32); out.extend(f.desc.clone()); out.push(10);
+			doc_lines(out, ind + 2, &f.doc);
+		}
+		let mut ms: Vec<&MMeth> = c.methods.iter().collect();
+		ms.sort_by(|a, b| a.names.cmp(&b.names).then_with(|| a.desc.cmp(&b.desc)));
+		for me in ms {
+			out.extend(std::iter::repeat(9).take(ind + 1)); out.extend(s("METHOD ")); out.extend(me.names[0].clone().unwrap_or_default());
+			if let Some(d) = mdst(me) { out.push(32); out.extend(d); }
+			out.push(32); out.extend(me.desc.clone()); out.push(10);
+			doc_lines(out, ind + 2, &me.doc);
+			let mut ps: Vec<&MParam> = me.params.iter().collect();
+			ps.sort_by(|a, b| a.index.cmp(&b.index).then_with(|| a.names.cmp(&b.names)));
+			for p in ps {
+				out.extend(std::iter::repeat(9).take(ind + 2)); out.extend(s(&format!("ARG {} ", p.index))); out.extend(p.names[1].clone().unwrap_or_default()); out.push(10);
+				doc_lines(out, ind + 3, &p.doc);
+			}
+		}
+		let mut kids: Vec<&MClass> = m.classes.iter().filter(|x| parent_in(m, x).map(key) == Some(key(c))).collect();
+		kids.sort_by_key(|x| key(x));
+		for k in kids { class(out, m, k, ind + 1); }
+	}
+	let mut roots: Vec<&MClass> = m.classes.iter().filter(|c| parent_in(m, c).is_none()).collect();
+	roots.sort_by_key(|c| file_name(c));
+	let mut out = vec![];
+	for r in roots { class(&mut out, m, r, 0); }
+	out
+}
+
+/// Independent reference for enigma_dir::read, on the implementation's own read_into: the files whose name has the extension
+/// `mapping`, in ascending order of their paths compared component by component, read one after the other into the same mappings
+fn ref_read_dir(files: &[(S, S)]) -> Option<Vec<MClass>> {
+	let mut fs: Vec<(Vec<String>, &S)> = files.iter().filter(|(p, _)| std::path::Path::new(&text_of(p)).extension().is_some_and(|e| e == "mapping"))
+		.map(|(p, c)| (text_of(p).split('/').map(|x| x.to_owned()).collect(), c)).collect();
+	fs.sort_by(|a, b| a.0.cmp(&b.0));
+	let mut acc = mm(vec![]);
+	for (_, content) in fs { acc = mm(impl_read_into(&acc, content).ok()??); }
+	Some(acc.classes)
+}
+fn dir_read_oracle(r: &mut Report, files: &[(S, S)], got: &Option<Vec<MClass>>) {
+	let want = ref_read_dir(files);
+	if &want != got {
+		let what = match (&want, got) {
+			(Some(_), None) => "enigma_dir::read fails on a directory whose mapping files, read one by one in sorted order, are accepted",
+			(None, Some(_)) => "enigma_dir::read accepts a directory whose mapping files, read one by one in sorted order, are refused",
+			_ => "enigma_dir::read does not give what reading the directory's *.mapping files one by one in sorted path order gives (a file skipped, a non-mapping file read, another order)",
+		};
+		r.violation(what.to_owned(), format!("property C12\nwhat: {what}\nfiles below the directory (path, content) (Gallina): {}\n{}\nexpected (Gallina): {:?}\nenigma_dir::read gave (Gallina): {:?}\n",
+			g_files(files), files.iter().map(|(p, c)| format!("--- {}\n{}", text_of(p), text_of(c))).collect::<Vec<_>>().join("\n"), want.as_ref().map(|w| g_classes(w)), got.as_ref().map(|g| g_classes(g))));
+	}
 }
 
 // special-looking method names: every source kind with every target kind
@@ -414,8 +496,10 @@ fn special_set(k: usize) -> MMappings {
 }
 
 // ---------- generators ----------
-const DOCS: [&str; 16] = ["a comment", "two\nlines", "  leading spaces", "# hash", "blank\n\nline", "trailing ", "ünï\u{1F600}", "x",
-	"", "\n", "a\n", " ", "x # y  z", "COMMENT", "\n\n#\n ", "\u{a0}nbsp\u{3000}"];
+const DOCS: [&str; 28] = ["a comment", "two\nlines", "  leading spaces", "# hash", "blank\n\nline", "trailing ", "ünï\u{1F600}", "x",
+	"", "\n", "a\n", " ", "x # y  z", "COMMENT", "\n\n#\n ", "\u{a0}nbsp\u{3000}",
+	// white space of every kind inside a line (round 5): runs of spaces, TAB, VT, FF, a CR that does not end a line
+	"Holds the value.  Never null.", "Layout:\n  x: the first\n\ty: the second", "tab\there", "\t", " \t ", "trail\t", "vt\u{b}x\u{c}ff", "cr\rmid", "\rstart", "   ", "a \n b", "x\t\ty  z \t"];
 fn my_doc(rng: &mut Rng) -> Option<S> { if rng.chance(1, 3) { Some(s(*rng.pick(&DOCS[..]))) } else { None } }
 
 /// two-namespace mapping set inside the hypotheses: nested targets follow the nesting, parameters have targets
@@ -505,7 +589,17 @@ fn gen_violating(rng: &mut Rng, kind: &str) -> MMappings {
 		}
 		"param-no-target" => { m.classes[ci].methods.push(MMeth { desc: s("(I)V"), names: vec![Some(s("noTarget")), None], doc: None, params: vec![MParam { index: 0, names: vec![Some(s("p")), None], doc: None }] }); }
 		"param-src-name" => { m.classes[ci].methods.push(MMeth { desc: s("(IJ)V"), names: vec![Some(s("withSrc")), Some(s("t"))], doc: None, params: vec![MParam { index: 1, names: vec![Some(s("srcName")), Some(s("x"))], doc: None }] }); }
-		"comment-ctl" => { m.classes[ci].doc = Some(s(*rng.pick(&["tab\there", "cr\rmid", "end\r", "vt\u{b}x", "ff\u{c}x", "a\r\nb"][..]))); }
+		"comment-ctl" => {
+			// the one comment shape the format cannot store: a line ending in CR — at every place a comment can stand
+			let d = Some(s(*rng.pick(&["end\r", "a\r\nb", "\r", "a\n\r", "\r\n", "x\r\n\ny", "tab\t\r", " \r"][..])));
+			let c = &mut m.classes[ci];
+			match rng.below(4) {
+				1 if !c.fields.is_empty() => { let k = rng.below(c.fields.len()); c.fields[k].doc = d; }
+				2 if !c.methods.is_empty() => { let k = rng.below(c.methods.len()); c.methods[k].doc = d; }
+				3 if c.methods.iter().any(|me| !me.params.is_empty()) => { let me = c.methods.iter_mut().find(|me| !me.params.is_empty()).unwrap(); me.params[0].doc = d; }
+				_ => c.doc = d,
+			}
+		}
 		"invalid-name" => match rng.below(3) {
 			0 => { m.classes[ci].fields.push(MField { desc: s("I"), names: vec![Some(s("a/b")), None], doc: None }); }
 			1 => { m.classes[ci].methods.push(MMeth { desc: s("()V"), names: vec![Some(s("<x>")), None], doc: None, params: vec![] }); }
@@ -567,7 +661,12 @@ const HAND: [&str; 44] = [
 
 /// round 4: reader exactness — nesting, prefix re-attachment, duplicates spelled in different ways, members between nested classes,
 /// comments interleaved with parameters, tags in the wrong place, lines below leaves, empty / spaced comments, `#` handling
-const HAND2: [&str; 34] = [
+const HAND2: [&str; 45] = [
+	// a line that has a blank before `COMMENT` is no COMMENT line for the tokeniser: trimmed, cut at `#`, split at every separator
+	"CLASS A\n\t COMMENT a  b # c\n", "CLASS A\n\tCOMMENT# x\ty\n\tCOMMENTS a\tb\n", "CLASS A\n\tFIELD a I\n\t\tCOMMENT\u{a0}nbsp is no separator\n",
+	// round 5: the text of a COMMENT line is everything after the first separator, whatever the separator and the text are
+	"CLASS A\n\tCOMMENT\ta\tb\n", "CLASS A\n\tCOMMENT a\tb  c \n\tCOMMENT \t\n", "CLASS A\n\tCOMMENT\u{b}x\u{c}y\n", "CLASS A\n\tCOMMENT a\r\n\tCOMMENT b\r\r\n", "CLASS A\n\tCOMMENT a\rb\n",
+	"CLASS A\n\tFIELD a I\n\t\tCOMMENT  two  spaces\t#\tkept \n", "CLASS A\n\tMETHOD m ()V\n\t\tARG 0 p\n\t\t\tCOMMENT\t\n\t\t\tCOMMENT \n\t\t\tCOMMENT\n", "CLASS A\n\tCOMMENT\r\n\tCOMMENT \r\n",
 	"CLASS A\n\tCLASS B\nCLASS A$B\n", "CLASS A$B\nCLASS A\n\tCLASS B\n", "CLASS A\n\tCLASS B\n\tCLASS B\n", "CLASS A X\n\tCLASS B Y\n\t\tCLASS C\n\t\t\tCLASS D Z\n",
 	"CLASS A\n\tFIELD a I\n\tCLASS B\n\tFIELD b I\n\tMETHOD m ()V\n\tCLASS C\n\t\tMETHOD n ()V\n\tCOMMENT x\n\tFIELD c I\n",
 	"CLASS A\n\tMETHOD m ()V\n\t\tCOMMENT a\n\t\tARG 0 p\n\t\t\tCOMMENT b\n\t\tCOMMENT c\n\t\tARG 1 q\n\t\t\tCOMMENT d\n\t\t\tCOMMENT e\n",
@@ -580,8 +679,11 @@ const HAND2: [&str; 34] = [
 ];
 
 /// comment shapes for the deterministic comment stream (every shape at every place a comment can stand)
-const DOCS2: [&str; 26] = ["", "\n", "\n\n", "a\n", "a\n\n", "\na", "a\n\nb\n", " ", "  ", " \n ", "trailing ", " leading", "#", "# x\n# y", "a # b", "COMMENT x", "COMMENT", "CLASS A B",
-	"x\u{85}y", "\u{85}", "x\u{2028}y", "\u{a0}", "\u{3000}end\u{3000}", "many   spaces   inside", "\u{1F600}\n\u{1F600}", "ACC:x"];
+const DOCS2: [&str; 44] = ["", "\n", "\n\n", "a\n", "a\n\n", "\na", "a\n\nb\n", " ", "  ", " \n ", "trailing ", " leading", "#", "# x\n# y", "a # b", "COMMENT x", "COMMENT", "CLASS A B",
+	"x\u{85}y", "\u{85}", "x\u{2028}y", "\u{a0}", "\u{3000}end\u{3000}", "many   spaces   inside", "\u{1F600}\n\u{1F600}", "ACC:x",
+	// round 5: two spaces, leading / trailing / only spaces next to line breaks, TAB / VT / FF / inner CR at the start, inside, at the
+	// end of a line and alone, pairs that differ only in the kind of white space
+	"a  b", "a b", "a\tb", "a\t\tb", "\ta", "a\t", "\t", "\t\n\t", "  \n  \n", "a \nb", "a\n b", "a\u{b}b", "a\u{c}", "\u{c}\u{b}", "a\rb", "\ra", "\r \n x", " \t\u{b}\u{c}\r "];
 fn doc_set(doc: &str, place: usize) -> MMappings {
 	let other = Some(s("other"));
 	let d = Some(s(doc));
@@ -733,6 +835,14 @@ fn oracle(r: &mut Report, rng: &mut Rng, m: &MMappings, sc: &mut Scratch, with_d
 		Ok(None) => r.violation("read_into rejects what write_all wrote".into(), replay("read_into returned an error on the text written by write_all", m, &format!("written text:\n{}\n", text_of(&text)))),
 		Err(p) => r.violation(format!("read_into panicked: {p}"), replay("read_into panicked", m, &p)),
 	}
+	// sorted output, line by line: the written text (its `#` header lines aside) is what the independent reference writer gives
+	let want_text = ref_write(m);
+	if strip_hash_lines(&text) != want_text {
+		let (a, b) = (text_of(&strip_hash_lines(&text)), text_of(&want_text));
+		let first = a.lines().zip(b.lines()).position(|(x, y)| x != y).unwrap_or(a.lines().count().min(b.lines().count()));
+		r.violation("write_all does not write what the format prescribes: classes, fields, methods, parameters in sorted order, one line each, comments below them".into(),
+			replay("written text differs from the independent reference writer", m, &format!("first differing line: {}\nwritten text:\n{}\nexpected (without the `#` lines):\n{}\n", first + 1, text_of(&text), b)));
+	}
 	// nesting in the text mirrors nesting of the source names; every class is there exactly once
 	let cl = class_lines(&text);
 	if cl.len() != m.classes.len() {
@@ -783,6 +893,7 @@ fn oracle(r: &mut Report, rng: &mut Rng, m: &MMappings, sc: &mut Scratch, with_d
 				let expect: Vec<S> = { let mut v: Vec<S> = names.iter().map(|n| { let mut p = n.clone(); p.extend(s(".mapping")); p }).collect(); v.sort(); v };
 				let gotn: Vec<S> = files.iter().map(|f| f.0.clone()).collect();
 				if expect != gotn { r.violation("enigma_dir::write creates other files than one per parent-free class".into(), replay("wrong set of files", m, &format!("files: {:?}\n", gotn.iter().map(|p| show(p)).collect::<Vec<_>>()))); }
+				if let Ok(got) = impl_read_dir(&files, sc) { dir_read_oracle(r, &files, &got); }
 				match impl_read_dir(&files, sc) {
 					Ok(Some(back)) if mm(back.clone()).equiv(&want) => {}
 					other => r.violation("round trip enigma_dir::write -> enigma_dir::read changes the mappings".into(), replay("directory round trip", m, &format!("files: {}\nread back: {:?}\n", g_files(&files), other.map(|o| o.map(|b| g_classes(&b)))))),
@@ -828,6 +939,7 @@ fn cases_x(r: &mut Report, rng: &mut Rng, stream: &str, m: &MMappings, sc: &mut 
 		}
 	}
 	let (mut dirw, mut dirback) = (None, None);
+	let mut dirw_raw: Option<bool> = None; // Some(true): enigma_dir::write succeeded
 	if with_dir {
 		// keep the file system out of what the model does not describe: plain path characters only
 		let plain = m.classes.iter().filter(|c| parent_in(m, c).is_none()).map(file_name).all(|n| scalar(&n) && obj_name(&n) && n.iter().all(|&c| c > 32 && c != 127 && c != '\\' as u32));
@@ -835,11 +947,25 @@ fn cases_x(r: &mut Report, rng: &mut Rng, stream: &str, m: &MMappings, sc: &mut 
 			match impl_write_dir(m, sc) {
 				Ok(fs) => {
 					r.count(if fs.is_some() { "write_dir_ok" } else { "write_dir_err" });
+					dirw_raw = Some(fs.is_some());
 					if let Some(fs) = &fs { match impl_read_dir(fs, sc) { Ok(b) => dirback = Some(gres(b.map(|b| g_classes(&b)))), Err(p) => r.violation(format!("enigma_dir::read panicked: {p}"), replay("enigma_dir::read panicked", m, &p)) } }
 					dirw = Some(gres(fs.as_ref().map(|f| g_files(f))));
 				}
 				Err(p) => r.violation(format!("enigma_dir::write panicked: {p}"), replay("enigma_dir::write panicked", m, &p)),
 			}
+		}
+	}
+	// on the implementation alone: a comment the format cannot store (a line ending in CR) must make both writers fail —
+	// writing it would lose the CR silently
+	if all_docs(m).iter().any(|d| !doc_ok(d)) {
+		r.count("unstorable_comment_sets");
+		if let Some(t) = &wall {
+			let back = impl_read(t).ok().flatten();
+			r.violation("write_all writes a comment that cannot be read back (a comment line ending in CR), instead of failing".into(),
+				replay("a comment line ending in a carriage return was written; reading takes the CR for a part of the line break", m, &format!("written text (code points): {}\nread back (Gallina): {:?}\n", gstr(t), back.map(|b| g_classes(&b)))));
+		}
+		if dirw_raw == Some(true) {
+			r.violation("enigma_dir::write writes a comment that cannot be read back (a comment line ending in CR), instead of failing".into(), replay("a comment line ending in a carriage return was written into the directory", m, ""));
 		}
 	}
 	r.case(stream, compact(&format!("CSet {gm} {} {} {} {} {} {}", gbool(enigma_ok(m).is_ok()), gres(wall.as_ref().map(|t| gstr(t))), gopt(back.map(|b| gres(b.map(|b| g_classes(&b))))), glist(ones), gopt(dirw), gopt(dirback))));
@@ -855,14 +981,14 @@ pub fn run(ctx: &Ctx) -> anyhow::Result<Report> {
 	let n_mut = if ctx.thorough { 2500 } else { 300 };
 	r.rule = format!("valid stream: {n_valid} two-namespace mapping sets from mapmodel::gen_mappings (0..7 classes, `$`-nested source names, packages, unicode, absent targets, <init> members) plus, in half of the classes, 1-3 methods from the table (<init>, <clinit>, run, COMMENT) x target (absent, <init>, <clinit>, identical to the source, other, ACC:t), identity-mapped methods, fields (1/8) and classes (1/10) \
 post-processed so that they satisfy enigma_ok (nested targets = target-or-source of the parent + `$` + simple name or absent, parameters get targets and lose their first-namespace name, duplicate file names removed), with orphan inner classes \
-(a parent dropped in 1/3 of the sets), root targets containing `$`, comments from 16 shapes (blank lines, leading/trailing spaces, `#`, empty, NBSP); every set goes through the full oracle on the implementation \
+(a parent dropped in 1/3 of the sets), root targets containing `$`, comments from 28 shapes (blank lines, leading/trailing/only spaces, runs of spaces, TAB / VT / FF / a CR inside a line, `#`, empty, NBSP); every set goes through the full oracle on the implementation \
 (stream and directory round trip against an independent normaliser, one CLASS line per class with depth = source nesting depth, every class in exactly one write_one file, write_all = concatenation of the sorted files apart from `#` lines, 2+1 shuffled insertion orders; the normaliser drops nothing but an `<init>` target) \
 and yields one CSet case (write_all, read_into of the written text, write_one for 1-3 names, every 4th set enigma_dir::write and ::read); the complete special-method table as 4 fixed sets (stream `special`, full oracle); {n_viol} sets for each of {} hypothesis-violating kinds (correspondence only; for `param-src-name` the documented loss is observed and counted); \
 a table-driven reader stream `unicode-ws`: every code point char::is_whitespace accepts (asked for all 0x110000) and 26 that it does not, at the start, end and inside of CLASS/FIELD/ARG/COMMENT lines (14 shapes each); {} hand-written reader inputs and {n_mut} mutations of written texts (malformed stream); \
-directory reads of generated file trees (non-mapping files, nested directories, colliding classes). \
+directory reads of generated file trees (non-mapping files, nested directories, colliding classes), each judged on the implementation alone against reading the *.mapping files one by one with read_into in sorted path order (round 5); the text write_all writes is compared, `#` lines aside, with an independent reference writer (sorted files / fields / methods / parameters / nested classes; round 5). \
 Round 4: read results are compared in exact IndexMap order; an independent reference reader written in the harness (tokenise, group lines by indentation, decode: one class per CLASS line under the joined names, nested first) is the oracle for every reader input \
 (hand, {} more hand-written texts on nesting / duplicates spelled differently / tags in wrong places / comment and `#` shapes, unicode-ws, mutated, read-into) — a difference is reported with the text; streams `hand-struct` / `mutated-struct` compare with the structural decoder read_struct; \
-`orphan-chain`: 9 sets where the direct outer class is absent and a further-out one present (full oracle + the file of such a class starts with its CLASS line carrying the full names); `comments`: {} comment shapes (empty, line breaks only, trailing line break, NEL / LINE SEPARATOR / NBSP, `#`, keyword-like) at 7 places; \
+`orphan-chain`: 9 sets where the direct outer class is absent and a further-out one present (full oracle + the file of such a class starts with its CLASS line carrying the full names); `comments`: {} comment shapes (empty, line breaks only, trailing line break, NEL / LINE SEPARATOR / NBSP, `#`, keyword-like; round 5: two spaces, leading / trailing / only spaces around line breaks, TAB / VT / FF / inner CR at the start, inside, at the end of a line and alone, pairs differing only in the kind of white space) at 7 places; stream viol-comment-ctl: a comment line ending in CR at every place a comment can stand — both writers must fail (oracle on the implementation alone: `writes a comment that cannot be read back`); \
 `read-into`: read_into on mappings already holding 1-3 classes (same classes again, hand texts, fresh classes, mutated texts; existing classes must stay a prefix); `bytes`: 12 ill-formed and 8 well-formed multi-byte UTF-8 sequences inserted into 4 texts (ill-formed => Err, never Ok / panic); \
 `path`: enigma_dir::read of a missing path and of single plain files; `dir-special`: enigma_dir::write with file names `.`, `..`, `../x`, `x/../../y`, absolute, NUL, components of 246..300 bytes (1-, 2-, 3-, 4-byte characters), deep directories — nothing may appear outside the target directory; `dir-case`: names differing only in case.", VIOLATIONS.len(), HAND.len(), HAND2.len(), DOCS2.len());
 
@@ -1131,7 +1257,7 @@ Round 4: read results are compared in exact IndexMap order; an independent refer
 		let fs = gen_dir_files(&mut rng);
 		r.eval(&g_files(&fs), !fs.is_empty());
 		match impl_read_dir(&fs, &mut sc) {
-			Ok(b) => { r.count(if b.is_some() { "dir_read_ok" } else { "dir_read_err" }); r.case("dir-read", compact(&format!("CReadDir {} {}", g_files(&fs), gres(b.map(|b| g_classes(&b)))))); }
+			Ok(b) => { r.count(if b.is_some() { "dir_read_ok" } else { "dir_read_err" }); dir_read_oracle(&mut r, &fs, &b); r.case("dir-read", compact(&format!("CReadDir {} {}", g_files(&fs), gres(b.map(|b| g_classes(&b)))))); }
 			Err(p) => r.violation(format!("enigma_dir::read panicked: {p}"), format!("property C12\nenigma_dir::read panicked: {p}\nfiles: {}\n", g_files(&fs))),
 		}
 	}
